@@ -16,10 +16,10 @@ def close(a, b, rel=1e-11):
     return a.shape == b.shape and bool(np.all(np.abs(a - b) <= rel * np.maximum(np.abs(b), 1e-300)))
 
 
-def histogram(coll, form):
+def histogram(coll, form, dtype=np.float64):
     """The collective as a pyLife load histogram (range / from-to interval classes whose amplitude is exactly 2^x)."""
     amp = [2.0 ** x for x, n in coll]
-    cyc = [float(n) for x, n in coll]
+    cyc = np.asarray([n for x, n in coll], dtype=dtype)
     if form == 'range':
         idx = pd.IntervalIndex.from_arrays([2 * a - a / 4 for a in amp], [2 * a + a / 4 for a in amp], name='range')
         return pd.Series(cyc, index=idx, name='cycles')
@@ -44,15 +44,20 @@ def check_state(st, fs):
     base = pd.Series({'k_1': float(c['k1']), 'SD': 2.0 ** c['a'], 'ND': 2.0 ** c['b']})
     case = {'k_1': c['k1'], 'SD': 2.0 ** c['a'], 'ND': 2.0 ** c['b'], 'classes_amplitude_cycles': [(2.0 ** x, n) for x, n in coll]}
     total = sum(n for _, n in coll)
+    shuffled = coll[1:] + coll[:1]
     forms = {'range': histogram(coll, 'range').load_collective, 'range_mean': histogram(coll, 'range_mean').load_collective,
-             'from_to': histogram(coll, 'from_to').load_collective, 'collective_df': collective_frame(coll).load_collective}
+             'from_to': histogram(coll, 'from_to').load_collective, 'collective_df': collective_frame(coll).load_collective,
+             'range_descending': histogram(coll[::-1], 'range').load_collective, 'range_rotated': histogram(shuffled, 'range').load_collective,
+             'range_int_counts': histogram(coll, 'range', np.int64).load_collective, 'from_to_int_counts_rotated': histogram(shuffled, 'from_to', np.int64).load_collective}
+    base_forms = ('range', 'range_mean', 'from_to', 'collective_df')
     with warnings.catch_warnings():
         warnings.simplefilter('ignore')
         try:
             for rule, meth in RULES.items():
                 curve = getattr(base.woehler, meth)().to_pandas()
                 want_total = {'original': out['d_orig'], 'haibach': out['d_haib'], 'elementary': out['d_elem']}[rule] / 2.0 ** SCALE
-                for fname, lc in forms.items():
+                for fname in base_forms:
+                    lc = forms[fname]
                     d = curve.fatigue.damage(lc)
                     if not close(d.sum(), want_total):
                         viol.append(('damage sum under Miner %s differs from sum n_i / N_i' % rule, {**case, 'form': fname}, want_total, float(d.sum())))
@@ -65,9 +70,21 @@ def check_state(st, fs):
             # Gassner: apply the collective for the predicted number of cycles -> damage exactly one
             for rule, acc in (('elementary', 'gassner_miner_elementary'), ('haibach', 'gassner_miner_haibach')):
                 curve = getattr(base.woehler, RULES[rule])().to_pandas()
-                for fname in ('range', 'from_to', 'collective_df'):
-                    lc = forms[fname]
-                    ng = float(getattr(curve, acc).gassner_cycles(lc))
+                # a curve WITH scatter, queried at another failure probability first: the prediction must not depend on the call history
+                scurve = curve.copy()
+                scurve['TN'], scurve['TS'] = 4.0, 2.0
+                for fname in ('range', 'from_to', 'collective_df', 'range_descending', 'range_rotated', 'range_int_counts', 'from_to_int_counts_rotated', 'history'):
+                    if fname == 'history':
+                        lc = forms['range']
+                        obj = getattr(scurve, acc)
+                        obj.cycles(2.0 ** (c['a'] + 1), failure_probability=0.1)
+                        ng = float(obj.lifetime_multiple(lc)) * float(obj.cycles(2.0 ** out['maxocc']))
+                        obj.cycles(2.0 ** (c['a'] + 1), failure_probability=0.1)
+                        if not close(float(obj.gassner_cycles(lc)), ng, 1e-10):
+                            viol.append(('gassner_cycles differs from lifetime multiple x cycles at the largest amplitude after a query at another failure probability', {**case, 'rule': rule}, ng, float(obj.gassner_cycles(lc))))
+                    else:
+                        lc = forms[fname]
+                        ng = float(getattr(curve, acc).gassner_cycles(lc))
                     per_cycle = float(curve.fatigue.damage(lc).sum()) / total          # damage of one pass through the collective per cycle
                     dmg = ng * per_cycle
                     model_exp = out['gassner_elem'] if rule == 'elementary' else out['gassner_haib']
@@ -77,6 +94,8 @@ def check_state(st, fs):
                             known.append('%s: %s' % (f['id'], f['symptom']))
                         else:
                             viol.append(('applying the collective for the Gassner cycles of Miner %s gives damage %.6g, not 1' % (rule, dmg), {**case, 'form': fname}, 1.0, dmg))
+                    if fname == 'history':
+                        continue
                     A = float(getattr(curve, acc).lifetime_multiple(lc))
                     dm = float(getattr(curve, acc).effective_damage_sum(lc))
                     if not (0.3 <= dm <= 1.0 and close(dm, min(max(0.3, 2.0 / A ** 0.25), 1.0), 1e-12)):
